@@ -174,3 +174,92 @@ func RandomGrammars(seed int64, want int, conflicting bool) []*SynGrammar {
 	}
 	return out
 }
+
+// ---- random lexical grammars (thorough tier of C01) -----------------------------------------
+
+func randLexPat(rng *rand.Rand, depth int, alphabet []rune) LPat {
+	nalt := 1
+	if rng.Intn(3) == 0 {
+		nalt = 2
+	}
+	var out LPat
+	for a := 0; a < nalt; a++ {
+		n := 1 + rng.Intn(3)
+		var seq []LTerm
+		for i := 0; i < n; i++ {
+			switch k := rng.Intn(10); {
+			case k < 5 || depth == 0:
+				seq = append(seq, C(alphabet[rng.Intn(len(alphabet))]))
+			case k < 7:
+				lo := alphabet[rng.Intn(len(alphabet))]
+				hi := alphabet[rng.Intn(len(alphabet))]
+				if lo > hi {
+					lo, hi = hi, lo
+				}
+				seq = append(seq, R(lo, hi))
+			case k == 7:
+				seq = append(seq, Opt(randLexPat(rng, depth-1, alphabet)))
+			case k == 8:
+				seq = append(seq, Rep(randLexPat(rng, depth-1, alphabet)))
+			default:
+				seq = append(seq, Grp(randLexPat(rng, depth-1, alphabet)))
+			}
+		}
+		out.Alts = append(out.Alts, seq)
+	}
+	return out
+}
+
+func lexNullable(p LPat) bool {
+	for _, alt := range p.Alts {
+		all := true
+		for _, t := range alt {
+			switch t.Kind {
+			case LOpt, LRep:
+			case LGroup:
+				if !lexNullable(*t.Sub) {
+					all = false
+				}
+			default:
+				all = false
+			}
+		}
+		if all {
+			return true
+		}
+	}
+	return false
+}
+
+// RandomLexSpecs draws lexical grammars without regular definitions (the D7 shape is pinned to
+// its own corpus grammar) and without patterns that match the empty string.
+func RandomLexSpecs(seed int64, want int) []*LexSpec {
+	rng := rand.New(rand.NewSource(seed*104729 + 7))
+	alphabet := []rune{'a', 'b', 'c', 'd', '0', '1', 0xe9}
+	var out []*LexSpec
+	for id := 0; len(out) < want && id < 1000; id++ {
+		l := &LexSpec{Name: fmt.Sprintf("RL%d_%d", seed, id), Why: "random lexical grammar", SynLits: []string{"q"}}
+		ntok := 2 + rng.Intn(3)
+		ok := true
+		for t := 0; t < ntok; t++ {
+			p := randLexPat(rng, 2, alphabet)
+			if lexNullable(p) {
+				ok = false
+				break
+			}
+			name := fmt.Sprintf("t%d", t)
+			if t == ntok-1 && rng.Intn(3) == 0 {
+				name = "!ig"
+			}
+			l.Prods = append(l.Prods, LProd{name, p})
+		}
+		if !ok {
+			continue
+		}
+		if n := l.BuildNFA(); n.n > 60 {
+			continue
+		}
+		out = append(out, l)
+	}
+	return out
+}
